@@ -204,6 +204,31 @@ theorem maxAgeSearch_lit (junk pre ws1 ws2 ds rest : List Char)
     simp [lowerL] at hl this
   rw [maxAgeSearch_skip _ _ hj, maxAgeSearch_of_at _ _ hne' (maxAgeAt_lit pre ws1 ws2 ds rest hpre hw1 hw2 hds hne hrest)]
 
+/-- a cache-control value that does not contain `max-age` (any casing) has no match -/
+theorem maxAgeSearch_none_of_no_infix (l : List Char) (h : isInfixL "max-age".toList (lowerL l) = false) :
+    maxAgeSearch l = none := by
+  induction l with
+  | nil => rfl
+  | cons c r ih =>
+    have hl : lowerL (c :: r) = lowerC c :: lowerL r := rfl
+    rw [hl] at h
+    simp only [isInfixL, Bool.or_eq_false_iff] at h
+    obtain ⟨hpre, hrest⟩ := h
+    have hat : maxAgeAt (c :: r) = none := by
+      unfold maxAgeAt
+      have hne : (lowerL (List.take 7 (c :: r)) == "max-age".toList) = false := by
+        rw [beq_eq_false_iff_ne]
+        intro he
+        have hp : ("max-age".toList).isPrefixOf (lowerC c :: lowerL r) = true := by
+          rw [← hl, ← he]
+          have : lowerL (List.take 7 (c :: r)) = List.take 7 (lowerL (c :: r)) := by simp [lowerL, List.map_take]
+          rw [this, List.isPrefixOf_iff_prefix]
+          exact List.take_prefix _ _
+        rw [hp] at hpre; cases hpre
+      simp only [hne, Bool.false_eq_true, if_false]
+    simp only [maxAgeSearch, hat]
+    exact ih hrest
+
 /-- **max-age is read as written**: `junk max-age <ws> = <ws> <decimal n> rest` yields `n` seconds, for any casing of
     `max-age`, any junk without `m`/`M` before it and any non-digit continuation — as long as `timedelta` accepts
     `n` seconds (`n < tdLimitSec`) and `int()` the numeral -/
